@@ -5,6 +5,8 @@ patch="$1"; shift
 cd /repo || exit 2
 if [ -n "$(git status --porcelain)" ]; then echo "repo not clean"; exit 2; fi
 git apply "$patch" || { echo "patch does not apply"; exit 2; }
+# evidence files are rewritten by every check run: keep the clean-tree ones
+save=$(mktemp -d /tmp/try_patch_ev.XXXXXX); cp -a /verif/evidence/. "$save"/
 for p in "$@"; do
   sh /verif/check.sh "$p" "${TIER:-quick}" > /tmp/try_$p.log 2>&1
   rc=$?
@@ -13,3 +15,4 @@ for p in "$@"; do
   grep -A1 "^VIOLATION" /tmp/try_$p.log | grep -v "^VIOLATION\|^--" | head -${SHOW:-4} | cut -c1-300
 done
 git checkout -- . && git status --porcelain
+cp -a "$save"/. /verif/evidence/; rm -rf "$save"
